@@ -2034,17 +2034,21 @@ def msvcrt_memset(jitter):
 def msvcrt_strrchr(jitter):
     ret_ad, args = jitter.func_args_cdecl(['pstr','c'])
     s = get_win_str_a(jitter, args.pstr)
-    c = int_to_byte(args.c).decode()
-    ret = args.pstr + s.rfind(c)
-    log.info("strrchr(%x '%s','%s') = %x" % (args.pstr,s,c,ret))
+    # The character is (char)c; the null terminator is part of the string
+    c = int_to_byte(args.c & 0xFF)
+    idx = jitter.vm.get_mem(args.pstr, len(s) + 1).rfind(c)
+    ret = args.pstr + idx if idx >= 0 else 0
+    log.info("strrchr(%x '%s',%r) = %x" % (args.pstr,s,c,ret))
     jitter.func_ret_cdecl(ret_ad, ret)
 
 def msvcrt_wcsrchr(jitter):
     ret_ad, args = jitter.func_args_cdecl(['pstr','c'])
     s = get_win_str_w(jitter, args.pstr)
-    c = int_to_byte(args.c).decode()
-    ret = args.pstr + (s.rfind(c)*2)
-    log.info("wcsrchr(%x '%s',%s) = %x" % (args.pstr,s,c,ret))
+    # The null terminator is part of the string
+    c = chr(args.c & 0xFFFF)
+    idx = (s + "\x00").rfind(c)
+    ret = args.pstr + idx * 2 if idx >= 0 else 0
+    log.info("wcsrchr(%x '%s',%r) = %x" % (args.pstr,s,c,ret))
     jitter.func_ret_cdecl(ret_ad, ret)
 
 def msvcrt_memcpy(jitter):
